@@ -518,6 +518,11 @@ type ruleWithExpsStack struct {
 	estack []any
 }
 
+type memoEntry struct {
+	offset int
+	node   any
+}
+
 // {{ end }} ==template==
 
 // {{ if .Nolint }} nolint: structcheck,maligned {{else}} ==template== {{ end }}
@@ -540,6 +545,12 @@ type parser struct {
 	// memoization table for the packrat algorithm:
 	// map[offset in source] map[expression or rule] {value, match}
 	memo map[int]map[any]resultTuple
+	// {{ end }} ==template==
+	// ==template== {{ if .LeftRecursion }}
+	// memoLog lists the memo entries made while a left-recursive rule grows
+	// its seed: an attempt that is discarded takes its entries along.
+	memoLog []memoEntry
+	growing int
 	// {{ end }} ==template==
 
 	// rules table, maps the rule identifier to the rule node
@@ -817,7 +828,24 @@ func (p *parser) setMemoized(pt savepoint, node any, tuple resultTuple) {
 		p.memo[pt.offset] = m
 	}
 	m[node] = tuple
+	// ==template== {{ if .LeftRecursion }}
+	if p.growing > 0 {
+		p.memoLog = append(p.memoLog, memoEntry{pt.offset, node})
+	}
+	// {{ end }} ==template==
 }
+
+// ==template== {{ if .LeftRecursion }}
+
+// forgetMemoized removes the memo entries logged since mark.
+func (p *parser) forgetMemoized(mark int) {
+	for _, e := range p.memoLog[mark:] {
+		delete(p.memo[e.offset], e.node)
+	}
+	p.memoLog = p.memoLog[:mark]
+}
+
+// {{ end }} ==template==
 
 // {{ end }} ==template==
 
@@ -932,7 +960,9 @@ func (p *parser) parseRuleRecursiveLeader(rule *rule) (any, bool) {
 		lastErrors = *p.errs
 	)
 
+	p.growing++
 	for {
+		logMark := len(p.memoLog)
 		// ==template== {{ if or .GlobalState (not .Optimize) }}
 		lastState := p.cloneState()
 		// {{ end }} ==template==
@@ -951,12 +981,20 @@ func (p *parser) parseRuleRecursiveLeader(rule *rule) (any, bool) {
 			p.restoreState(lastState)
 			// {{ end }} ==template==
 			*p.errs = lastErrors
+			// the attempt is discarded as a whole: a result memoized during it
+			// would later be used without the errors that came with it.
+			p.forgetMemoized(logMark)
 			break
 		}
 		lastResult = resultTuple{val, ok, endMark}
 		lastErrors = *p.errs
 		p.restore(startMark)
 		depth++
+	}
+
+	p.growing--
+	if p.growing == 0 {
+		p.memoLog = p.memoLog[:0]
 	}
 
 	p.restore(lastResult.end)
